@@ -12,6 +12,8 @@
  */
 
 #include "cppExpression.h"
+
+#include <set>
 #include "cppToken.h"
 #include "cppIdentifier.h"
 #include "cppType.h"
@@ -604,14 +606,20 @@ evaluate() const {
   case T_variable:
     if (_u._variable->_type != nullptr &&
         _u._variable->_initializer != nullptr) {
-      // A constexpr variable, which is treated as const.
-      if (_u._variable->_storage_class & (CPPInstance::SC_constexpr | CPPInstance::SC_constinit)) {
-        return _u._variable->_initializer->evaluate();
-      }
-      // A const variable.  Fetch its assigned value.
-      CPPConstType *const_type = _u._variable->_type->as_const_type();
-      if (const_type != nullptr) {
-        return _u._variable->_initializer->evaluate();
+      // A constexpr variable is treated as const; for a const variable we
+      // fetch its assigned value.
+      if ((_u._variable->_storage_class & (CPPInstance::SC_constexpr | CPPInstance::SC_constinit)) != 0 ||
+          _u._variable->_type->as_const_type() != nullptr) {
+        // An initializer that refers back to its own variable (a member of a
+        // class template defined through the same template) has no value we
+        // can compute.
+        static std::set<const CPPInstance *> in_progress;
+        if (!in_progress.insert(_u._variable).second) {
+          return Result();
+        }
+        Result result = _u._variable->_initializer->evaluate();
+        in_progress.erase(_u._variable);
+        return result;
       }
     }
     return Result();
